@@ -44,6 +44,7 @@ type accAnnotations struct {
 	Packages     []string                         `json:"packages"`
 	TrackedTypes map[string]any                   `json:"tracked_types"`
 	AtomicTypes  struct{ Types []string }         `json:"atomic_types"`
+	UnsafePointeeTypes struct{ Types []string } `json:"unsafe_pointee_types"`
 	LockAliases  []struct{ Expr, Is, Why string } `json:"lock_aliases"`
 	ResultLocks  []struct {
 		Callee string
@@ -115,6 +116,12 @@ type pubInfo struct {
 	anyUse    bool   // Pool.Put: the object is no longer ours, any later use counts; otherwise only writes
 	longLived bool   // the name is a field of a TRACKED struct (an object that lives across calls): retaining it matters
 	direct    bool   // the name IS the address of the tracked field `container` (v := &x.f): uses are accesses of the field itself
+	// guard (unsafe pointees, v := x.f with x.f e.g. a hash.Hash32): the locks held on every path on which the
+	// name still refers to the field's pointee — the lockset at the assignment, updated by later lock / unlock
+	// operations, met at joins only with the arms where the alias survives (path-sensitive in the alias fact:
+	// `if v != nil { lock } else { v = pool.Get() }` leaves guard = {lock}).  Method calls through the name
+	// are writes of pointee:<container> under the guard.
+	guard *lockset
 }
 
 func newLS(fresh bool) *lockset {
@@ -129,12 +136,45 @@ func (l *lockset) clone() *lockset {
 		n.removed[k] = true
 	}
 	for k, v := range l.pub {
+		if v.guard != nil {
+			v.guard = v.guard.snapshot()
+		}
 		n.pub[k] = v
 	}
 	return n
 }
-func (l *lockset) lock(id string, m lmode) { l.added[id] = m; delete(l.removed, id) }
-func (l *lockset) unlock(id string)        { delete(l.added, id); l.removed[id] = true }
+
+// snapshot: the lock part only (no publication facts)
+func (l *lockset) snapshot() *lockset {
+	n := newLS(l.fresh)
+	for k, v := range l.added {
+		n.added[k] = v
+	}
+	for k := range l.removed {
+		n.removed[k] = true
+	}
+	return n
+}
+func (l *lockset) lock(id string, m lmode) {
+	l.added[id] = m
+	delete(l.removed, id)
+	for _, p := range l.pub {
+		if p.guard != nil {
+			p.guard.added[id] = m
+			delete(p.guard.removed, id)
+		}
+	}
+}
+func (l *lockset) unlock(id string) {
+	delete(l.added, id)
+	l.removed[id] = true
+	for _, p := range l.pub {
+		if p.guard != nil {
+			delete(p.guard.added, id)
+			p.guard.removed[id] = true
+		}
+	}
+}
 
 // meet: must-information at a join
 func meet(a, b *lockset) *lockset {
@@ -154,9 +194,19 @@ func meet(a, b *lockset) *lockset {
 		n.removed[k] = true
 	}
 	for k, v := range a.pub {
+		if v.guard != nil {
+			v.guard = v.guard.snapshot()
+		}
 		n.pub[k] = v
 	}
 	for k, v := range b.pub {
+		if v.guard != nil {
+			if u, both := a.pub[k]; both && u.guard != nil && u.container == v.container {
+				v.guard = meet(u.guard, v.guard) // the alias holds on both arms: what is held on both
+			} else {
+				v.guard = v.guard.snapshot() // the alias holds on this arm only
+			}
+		}
 		n.pub[k] = v
 	}
 	return n
@@ -176,6 +226,7 @@ type accRow struct {
 	ls      *lockset
 	owner   *funcNode
 	pos     token.Pos
+	guarded bool // lockset = alias guard (path-sensitive in the alias fact): not re-derivable by the skeleton analysis
 }
 
 // closureInfo: how a function literal is run (recorded by the walker, used by the skeleton builder)
@@ -222,9 +273,13 @@ type accExtractor struct {
 	pkgs          []*pkgInfo
 	tracked       map[*types.TypeName]string // type → display name
 	atomicTy      map[string]bool
+	unsafePointee map[string]bool       // field types whose pointee is not safe for concurrent use (annotation)
+	copyVars      map[types.Object]bool // receivers / parameters of a struct VALUE type: a private copy per call
 	funcs         map[*types.Func]*funcNode
 	rows          []*accRow
 	unresolved    []string
+	copiedLocks   []string
+	copiedSeen    map[string]bool
 	usedAnn       map[string]bool
 	nclosure      map[string]int
 	methodsNamed  map[string][]*funcNode // declared methods by name (interface-call targets)
@@ -322,6 +377,41 @@ func extractAccesses(repo, root string) error {
 	}
 	for _, t := range x.ann.AtomicTypes.Types {
 		x.atomicTy[t] = true
+	}
+	x.unsafePointee = map[string]bool{}
+	x.copiedSeen = map[string]bool{}
+	for _, t := range x.ann.UnsafePointeeTypes.Types {
+		x.unsafePointee[t] = true
+	}
+	// receivers and parameters passed BY VALUE: a mutex inside is a fresh copy on every call
+	x.copyVars = map[types.Object]bool{}
+	for _, p := range x.pkgs {
+		for _, f := range p.files {
+			ast.Inspect(f, func(n ast.Node) bool {
+				var lists []*ast.FieldList
+				switch n := n.(type) {
+				case *ast.FuncDecl:
+					lists = append(lists, n.Recv, n.Type.Params)
+				case *ast.FuncLit:
+					lists = append(lists, n.Type.Params)
+				}
+				for _, fl := range lists {
+					if fl == nil {
+						continue
+					}
+					for _, fd := range fl.List {
+						for _, nm := range fd.Names {
+							if o := p.info.Defs[nm]; o != nil {
+								if _, isStruct := o.Type().Underlying().(*types.Struct); isStruct {
+									x.copyVars[o] = true
+								}
+							}
+						}
+					}
+				}
+				return true
+			})
+		}
 	}
 	// tracked types
 	for grp, v := range x.ann.TrackedTypes {
@@ -569,6 +659,9 @@ func (w *walker) stmt(s ast.Stmt, ls *lockset) (*lockset, bool) {
 						// v := &x.f — the address of a tracked field in a local: every later use of v (after the
 						// lock was released, say) is an access of x.f with the lockset held THERE
 						ls.pub[k] = pubInfo{container: c, anyUse: true, direct: true}
+					} else if c, ok := w.unsafePointeeField(s.Rhs[i]); ok {
+						// v := x.f with x.f an object that is not safe for concurrent use (hash.Hash32, io.Writer …)
+						ls.pub[k] = pubInfo{container: c, guard: ls.snapshot()}
 					}
 				}
 			}
@@ -1111,6 +1204,16 @@ func (w *walker) lockID(recv ast.Expr) string {
 				if n := namedOf(t); n != nil {
 					if _, ok := n.Underlying().(*types.Struct); ok && n.Obj().Pkg() != nil && n.Obj().Pkg().Path() != "sync" {
 						id := w.x.typeDisplay(n.Obj()) + "." + strings.Join(parts, ".")
+						if w.copiedBase(u.X) {
+							// h.lock with h a by-value receiver / parameter: every call locks ITS OWN copy of the
+							// mutex — it excludes nobody (go vet copylocks).  Not a lock of the table.
+							msg := fmt.Sprintf("%s: %s is reached through a by-value copy (value receiver / struct parameter): the lock protects nothing", w.x.fset.Position(recv.Pos()), id)
+							if !w.x.copiedSeen[msg] {
+								w.x.copiedSeen[msg] = true
+								w.x.copiedLocks = append(w.x.copiedLocks, msg)
+							}
+							return ""
+						}
 						for _, a := range w.x.ann.LockAliases {
 							if a.Expr == id {
 								w.x.usedAnn["lock_alias "+a.Expr] = true
@@ -1125,6 +1228,29 @@ func (w *walker) lockID(recv ast.Expr) string {
 			continue
 		}
 		return ""
+	}
+}
+
+// copiedBase: e is a by-value receiver / parameter (or a chain of value fields below one)
+func (w *walker) copiedBase(e ast.Expr) bool {
+	for {
+		switch u := e.(type) {
+		case *ast.ParenExpr:
+			e = u.X
+			continue
+		case *ast.SelectorExpr:
+			if t := w.p.info.TypeOf(u.X); t != nil {
+				if _, isPtr := t.Underlying().(*types.Pointer); isPtr {
+					return false
+				}
+			}
+			e = u.X
+			continue
+		case *ast.Ident:
+			o := w.p.info.Uses[u]
+			return o != nil && w.x.copyVars[o]
+		}
+		return false
 	}
 }
 
@@ -1338,6 +1464,7 @@ func (w *walker) call(c *ast.CallExpr, ls *lockset, kind string) {
 		}
 		return
 	}
+	w.pointeeUses(c, recv, ls)
 	// receiver / function expression
 	recvMode := mRead
 	if callee != nil && recv != nil {
@@ -1966,7 +2093,7 @@ func (x *accExtractor) emit(root string) error {
 			if len(r.Locks) > 0 {
 				exempt = append(exempt, r.Occ)
 			}
-		} else if exemptFn[r.Func] || exemptFn[base] {
+		} else if exemptFn[r.Func] || exemptFn[base] || (r.guarded && len(r.Locks) > 0) {
 			exempt = append(exempt, r.Occ)
 		}
 	}
@@ -1984,6 +2111,7 @@ func (x *accExtractor) emit(root string) error {
 			}
 		}
 	}
+	fmt.Fprintf(&sk, "/-- Lock / Unlock calls whose mutex is reached through a by-value receiver or struct parameter: the call locks a\n    private copy, which excludes nobody; such a call contributes no hold to the table and is reported -/\ndef copiedLockOps : Nat := %d\n\n", len(x.copiedLocks))
 	fmt.Fprintf(&sk, "/-- tokens whose ordering claim is an assumption (ownership hand-offs, sync.Once) -/\ndef plainTokenIds : List Mutex := [%s]\n\n", strings.Join(plainIDs, ", "))
 	fmt.Fprintf(&sk, "/-- closed-flag barrier tokens with their guard mutex: (token, guard) -/\ndef barrierTokens : List (Mutex × Mutex) := [%s]\n\n", strings.Join(barrierIDs, ", "))
 	fmt.Fprintf(&sk, "/-- ordering-protocol tokens: not locks, not subject to the lockset analysis -/\ndef tokenIds : List Mutex := [%s]\n\n", strings.Join(tokenIDs, ", "))
@@ -2078,6 +2206,7 @@ func (x *accExtractor) emit(root string) error {
 		Racy        []jpair             `json:"racy"`
 		Excluded    []*accRow           `json:"excluded"`
 		Unresolved  []string            `json:"unresolved"`
+		CopiedLocks []string            `json:"copied_locks"`
 		Confinement []string            `json:"confinement"`
 		Used        []string            `json:"annotations_used"`
 		Entry       map[string][]string `json:"entry_locksets"`
@@ -2089,7 +2218,7 @@ func (x *accExtractor) emit(root string) error {
 		SkLockOps   int                 `json:"lock_ops_in_skeletons"`
 		Aliases     []string            `json:"pointer_aliases"`
 		CHAEdges    int                 `json:"interface_call_edges"`
-	}{Rows: rows, Excluded: excluded, Unresolved: x.unresolved, Confinement: confinement, Used: used, Entry: map[string][]string{}, Fields: len(fields), Locks: locks}
+	}{Rows: rows, Excluded: excluded, Unresolved: x.unresolved, CopiedLocks: x.copiedLocks, Confinement: confinement, Used: used, Entry: map[string][]string{}, Fields: len(fields), Locks: locks}
 	for _, p := range racy {
 		out.Racy = append(out.Racy, jpair{p.A.Field, p.A, p.B})
 	}
@@ -2499,6 +2628,92 @@ func (x *accExtractor) confined(globs []string) map[string]bool {
 	}
 	x.confinedCache[key] = set
 	return set
+}
+
+// unsafePointeeField: e is `x.f` with f a field of a tracked type whose type is listed in the annotation
+// unsafe_pointee_types (interfaces / pointers whose implementations are not safe for concurrent use by contract:
+// hash.Hash32, io.Writer, …).  The field holds a reference: the object behind it is shared by everybody who reads
+// the field, and calling its methods mutates it.
+func (w *walker) unsafePointeeField(e ast.Expr) (string, bool) {
+	if len(w.x.unsafePointee) == 0 {
+		return "", false
+	}
+	for {
+		if p, ok := e.(*ast.ParenExpr); ok {
+			e = p.X
+			continue
+		}
+		break
+	}
+	se, ok := e.(*ast.SelectorExpr)
+	if !ok {
+		return "", false
+	}
+	sel := w.p.info.Selections[se]
+	if sel == nil || sel.Kind() != types.FieldVal {
+		return "", false
+	}
+	t := sel.Recv()
+	idx := sel.Index()
+	for i, k := range idx {
+		st, ok := derefStruct(t)
+		if !ok {
+			return "", false
+		}
+		f := st.Field(k)
+		if i == len(idx)-1 {
+			owner, tracked := w.trackedStruct(t)
+			if !tracked {
+				return "", false
+			}
+			ts := types.TypeString(f.Type(), func(p *types.Package) string { return p.Path() })
+			if !w.x.unsafePointee[ts] {
+				return "", false
+			}
+			w.x.usedAnn["unsafe_pointee "+ts] = true
+			return owner + "." + f.Name(), true
+		}
+		t = f.Type()
+	}
+	return "", false
+}
+
+// pointeeUses: a method call on, or the passing on of, an unsafe pointee — directly (`x.f.Reset()`) or through a
+// local that still refers to it (`v := x.f; …; v.Reset()`): a write of pointee:<T.f> under the current lockset,
+// resp. under the alias guard.
+func (w *walker) pointeeUses(c *ast.CallExpr, recv ast.Expr, ls *lockset) {
+	if len(w.x.unsafePointee) == 0 {
+		return
+	}
+	use := func(e ast.Expr) {
+		for {
+			if p, ok := e.(*ast.ParenExpr); ok {
+				e = p.X
+				continue
+			}
+			break
+		}
+		if cont, ok := w.unsafePointeeField(e); ok {
+			w.pubRowD(cont, false, e.Pos(), ls)
+			return
+		}
+		if k := exprKey(e); k != "" && !strings.Contains(k, ".") {
+			if info, ok := ls.pub[k]; ok && info.guard != nil {
+				g := info.guard.snapshot()
+				g.fresh = ls.fresh
+				w.pubRowD(info.container, false, e.Pos(), g)
+				w.x.rows[len(w.x.rows)-1].guarded = true
+			}
+		}
+	}
+	if f, ok := c.Fun.(*ast.SelectorExpr); ok && recv != nil {
+		if sel := w.p.info.Selections[f]; sel != nil && sel.Kind() == types.MethodVal {
+			use(recv)
+		}
+	}
+	for _, a := range c.Args {
+		use(a)
+	}
 }
 
 // sharedPtrField: e is `x.f` where f is a field of a tracked type whose type is a pointer to a named struct that
